@@ -457,7 +457,8 @@ def reject_factor(f, fn):
             if not ok:
                 msg = ("on a rejecting path the next step is h * g with |g| in %r (g = %s): the step is not guaranteed to shrink%s"
                        % (a, sig[:160], "; with a NaN error norm the factor can be NaN or exactly 1" if a.nan or a.hi == 1.0 else ""))
-            results.append(dict(case=case, ok=ok, msg=msg, range=repr(a), g=sig[:200], span=hk.main_loop.get("sp")))
+            results.append(dict(case=case, ok=ok, msg=msg, range=repr(a), g=sig[:200], span=hk.main_loop.get("sp"),
+                                lo=None if a.empty() else a.lo, unknown=bool(ev.unknown)))
     if n_id == 0:
         raise IntervalError("cannot identify the step variable of %s in any path variant" % fn)
     if not results:
